@@ -267,6 +267,20 @@ def r_accum(prog, tier):
                         why = '`%s` happens only under `%s%s`; otherwise the %s is not counted at all' % (
                             unparse(n.ast)[:50], '' if a.pol else 'not ', unparse(a.ast)[:40], 'constituent' if pol else 'token')
         obs.append(Ob('R-ACCUM/EXTRACT', f.fq, what, ok, why, construct='extract:' + what, line=f.node.lineno))
+    # ---- extract looks at every node of every tree: no way out before the walk (a tree that is a single token still
+    #      contributes its word to the lexicon)
+    fx = prog.func('grammar', 'extract')
+    cx = fx.cfg
+    walks_ = [t.id for t in cx.eval_nodes() if t.kind == 'iter' and 'preorder(%s)' % fx.params[0] in unparse(t.ast.iter)]
+    if walks_:
+        exits_ = [p_ for p_ in cx.pred[cx.exit] if cx.nodes[p_].kind == 'stmt' and isinstance(cx.nodes[p_].ast, ast.Return)]
+        early_ = [p_ for p_ in exits_ if p_ in cx.reach(cx.entry, avoid=frozenset(walks_))]
+        if early_:
+            nd_ = cx.nodes[early_[0]]
+            obs.append(Ob('R-ACCUM/EXTRACT', fx.fq, 'every tree is walked', None if prog.opaque_calls(fx, [fx.params[0]]) else False,
+                          '`%s` (line %d, under %s) leaves before the walk over the nodes: the token(s) of such a tree are never '
+                          'counted in the lexicon' % (unparse(nd_.ast)[:30], nd_.lineno, [unparse(a_.ast)[:40] for a_ in cx.assumes_at(nd_.id)]),
+                          construct='extract-always', line=nd_.lineno))
     # ---- analysis tasks
     obs.extend(_task_rules(prog))
     return obs, {'count_slot_stores': nslot, 'entry_creations': ninit}
@@ -658,6 +672,14 @@ def _inc_of(st):
             and isinstance(st.value, ast.BinOp) and isinstance(st.value.op, ast.Add) \
             and unparse(st.value.left) == unparse(st.targets[0]) and unparse(st.value.right) == '1':
         return unparse(st.targets[0].value), unparse(st.targets[0].slice)
+    # C[k] = C.get(k, 0) + 1
+    if isinstance(st, ast.Assign) and len(st.targets) == 1 and isinstance(st.targets[0], ast.Subscript) \
+            and isinstance(st.value, ast.BinOp) and isinstance(st.value.op, ast.Add) and unparse(st.value.right) == '1' \
+            and isinstance(st.value.left, ast.Call) and isinstance(st.value.left.func, ast.Attribute) \
+            and st.value.left.func.attr == 'get' and unparse(st.value.left.func.value) == unparse(st.targets[0].value) \
+            and len(st.value.left.args) == 2 and unparse(st.value.left.args[0]) == unparse(st.targets[0].slice) \
+            and unparse(st.value.left.args[1]) == '0':
+        return unparse(st.targets[0].value), unparse(st.targets[0].slice)
     return None
 
 
@@ -691,6 +713,12 @@ def _emission_verdict(f, n, k, v):
         anyinc = [m for m in cfg.eval_nodes() if m.kind == 'stmt' and _inc_of(m.ast) and _inc_of(m.ast)[0] == ctr]
         if anyinc:
             return None, 'the counter `%s` is advanced under another key expression' % ctr
+        stores_ = [m for m in cfg.eval_nodes() if m.kind == 'stmt' and isinstance(m.ast, (ast.Assign, ast.AugAssign)) and any(
+            isinstance(t_, ast.Subscript) and unparse(t_.value) == ctr
+            for t_ in (m.ast.targets if isinstance(m.ast, ast.Assign) else [m.ast.target]))]
+        if stores_:
+            return None, 'the counter `%s` is written (`%s`) in a form this rule does not read as a step of one' % (
+                ctr, unparse(stores_[0].ast)[:40])
         return False, 'the counter `%s[%s]` is never advanced: every reference gets the same position' % (ctr, ks)
     paired = [m for m in incs if cfg.same_loop(m.id, n.id) and cfg.always_with(m.id, n.id) and cfg.always_with(n.id, m.id)]
     if not paired:
@@ -730,6 +758,8 @@ def r_argpos(prog, tier):
                           % unparse(n.ast), ok, why, construct='argpos:' + unparse(n.ast), line=n.lineno))
             if fname != 'extract':
                 continue
+            if not any(isinstance(x_, ast.Subscript) for x_ in ast.walk(v)):
+                continue        # a pair collected for another purpose (no position read from a counter): not an emission
             # the merge test: emitted iff the current argument is empty or its last reference is to another child
             from ..values import guard_table
             cur = unparse(c.func.value)
@@ -1213,9 +1243,17 @@ def r_sortedpos(prog, tier):
         if isinstance(e, ast.Name):
             return e.id, False
         return None, False
+    # a position dictionary that is later re-bound to the sorted list of its values is a list from there on
+    rebound_at = {}
+    for n in walk_own(f.node):
+        if isinstance(n, ast.Assign) and isinstance(n.targets[0], ast.Name) and n.targets[0].id in posd \
+                and unparse(n.value) != 'defaultdict(dict)':
+            rebound_at[n.targets[0].id] = min(rebound_at.get(n.targets[0].id, 10 ** 9), n.end_lineno or n.lineno)
     for it in iters:
         nm, wrapped = base(it)
         if nm is None or nm not in (posd | inner):
+            continue
+        if nm in rebound_at and it.lineno > rebound_at[nm]:
             continue
         cnt += 1
         obs.append(Ob('R-SORTEDPOS', f.fq, 'positions collected in dictionary `%s` are written in ascending order'
@@ -1246,6 +1284,26 @@ def r_sortedpos(prog, tier):
                           '`%s = 0` (line %d) is outside the loop over the linearizations: the second linearization of a rule is '
                           'written with variables numbered on from the first (`[2][3]` for `[0][1]`)' % (nm, cfg.nodes[inits[0][0]].lineno),
                           construct='clausectr:' + nm, line=cfg.nodes[inits[0][0]].lineno))
+        # the same for buffers / tables that are filled while a clause is put together
+        for nm in sorted(f.locals):
+            dv = name_defs(f, nm)
+            fresh_defs = [(nid, v) for (nid, v) in dv if isinstance(v, ast.Call) and unparse(v.func).split('.')[-1] in (
+                'StringIO', 'defaultdict', 'dict', 'list') or isinstance(v, (ast.List, ast.Dict))]
+            if not fresh_defs or len(fresh_defs) != len([d_ for d_ in dv if isinstance(d_[1], ast.AST) and not (
+                    isinstance(d_[1], ast.ListComp))]) or nm in posd:
+                continue
+            writes = [m for m in cfg.eval_nodes() if m.kind == 'stmt' and clause_loops <= set(m.loops) and any(
+                isinstance(x, ast.Call) and isinstance(x.func, ast.Attribute) and isinstance(x.func.value, ast.Name)
+                and x.func.value.id == nm and x.func.attr in ('write', 'append') for x in walk_own(m.ast))]
+            if not writes:
+                continue
+            fresh = all(clause_loops <= set(cfg.nodes[nid].loops) for (nid, _) in fresh_defs)
+            obs.append(Ob('R-SORTEDPOS', f.fq, 'the buffer `%s` filled while a clause is written is a new one for every clause' % nm,
+                          True if fresh else False,
+                          'created where the per-clause tables are' if fresh else
+                          '`%s = %s` (line %d) is outside the loop over the linearizations: the second linearization of a rule is written '
+                          'with the text of the first still in the buffer' % (nm, unparse(fresh_defs[0][1])[:20], cfg.nodes[fresh_defs[0][0]].lineno),
+                          construct='clausebuf:' + nm, line=cfg.nodes[fresh_defs[0][0]].lineno))
     return obs, {}
 
 
@@ -1565,6 +1623,20 @@ def _desugar_quantifier_tests(f):
                 sub = getattr(st, fld, None)
                 if isinstance(sub, list) and sub and isinstance(sub[0], ast.stmt) and not isinstance(st, (ast.FunctionDef, ast.ClassDef)):
                     setattr(st, fld, rewrite(sub))
+            if isinstance(st, ast.Assign) and len(st.targets) == 1 and isinstance(st.targets[0], ast.Name) \
+                    and isinstance(st.value, (ast.Compare, ast.BoolOp)) or (
+                    isinstance(st, ast.Assign) and len(st.targets) == 1 and isinstance(st.targets[0], ast.Name)
+                    and isinstance(st.value, ast.UnaryOp) and isinstance(st.value.op, ast.Not)):
+                # flag = <condition>   ->   if <condition>: flag = True  else: flag = False
+                count[0] += 1
+                nm_ = st.targets[0].id
+                t_ = ast.Assign(targets=[ast.Name(id=nm_, ctx=ast.Store())], value=ast.Constant(value=True))
+                f_ = ast.Assign(targets=[ast.Name(id=nm_, ctx=ast.Store())], value=ast.Constant(value=False))
+                new_if = ast.If(test=st.value, body=[t_], orelse=[f_])
+                ast.copy_location(new_if, st)
+                ast.fix_missing_locations(new_if)
+                out.append(new_if)
+                continue
             if isinstance(st, ast.If):
                 t = st.test
                 neg = False
@@ -1664,6 +1736,21 @@ def r_pairuse(prog, tier):
                     elif set(un0) == set(un1):
                         ok = False
                         why = 'the two results of the reordering call are handed over in swapped positions'
+                # the call happens once per rule: inside every loop that (re)binds what it is given
+                for a_ in (a0, a1):
+                    if isinstance(a_, ast.Name):
+                        for (dn_, _) in name_defs(f, a_.id):
+                            extra_ = [l_ for l_ in cfg.nodes[dn_].loops if l_ not in n.loops]
+                            if extra_ and n.id in cfg.reach(dn_):
+                                obs.append(Ob('R-PAIRUSE', f.fq, 'binarize_rule is called for every rule: `%s`' % unparse(sub)[:50], False,
+                                              '`%s` is bound inside `%s` (line %d) but the call is outside that loop: only the last of its '
+                                              'values is binarized, the other linearizations of the production vanish' % (
+                                                  a_.id, unparse(cfg.nodes[extra_[-1]].ast).split('\n')[0][:40], cfg.nodes[dn_].lineno),
+                                              construct='pairuse-loop:%s' % a_.id, line=n.lineno))
+                                break
+                        else:
+                            continue
+                        break
                 obs.append(Ob('R-PAIRUSE', f.fq, 'binarize_rule receives a production together with its own linearization '
                               '(`%s`, `%s`)' % (unparse(a0), unparse(a1)), ok, why,
                               construct='pairuse:%s:%s' % (unparse(a0), unparse(a1)), line=n.lineno))
